@@ -66,6 +66,9 @@ theorem C08.reach (hG : GuardsCover = true) (hE : ExtOk E) (hC : CustomGood E) :
   | .seq _ vc, h =>
     reach_seq (C03.good hG hE vc (by simpa only [Conv.wf] using h))
       (C08.reach hG hE hC vc (by simpa only [Conv.wf] using h))
+  | .vol vc, h =>
+    reach_vol (C03.good hG hE vc (by simpa only [Conv.wf] using h))
+      (C08.reach hG hE hC vc (by simpa only [Conv.wf] using h))
   | .cond inner _ _, h => reach_cond (C08.reach hG hE hC inner (by simpa only [Conv.wf] using h))
   | .enum _ _ inner, h => reach_enum (C08.reach hG hE hC inner (by simpa only [Conv.wf] using h))
   | .delegate _ inner, h => reach_delegate (C08.reach hG hE hC inner (by simpa only [Conv.wf] using h))
@@ -242,9 +245,21 @@ theorem C08.deep (v : Val) : (c : Conv) → c.recordsInputDeep = true → (t : E
   | .struct .., h, t, hcol | .dict .., h, t, hcol | .seq .., h, t, hcol | .cond .., h, t, hcol
   | .enum .., h, t, hcol | .delegate .., h, t, hcol | .pattern .., h, t, hcol | .nested _, h, t, hcol
   | .pane .., h, t, hcol => by
-    rcases Conv.recordsInputDeep_iff.1 h with hr | ⟨_, hd, _⟩
+    rcases Conv.recordsInputDeep_iff.1 h with hr | ⟨_, hd, _⟩ | ⟨_, hd, _⟩
     · exact C08.leaf_flat hr v hcol
     · cases hd
+    · cases hd
+  | .vol d, h, t, hcol => by
+    -- a sum of `d`'s own report and the list converter's own report (which records the input itself)
+    rw [Conv.recordsInputDeep_vol] at h
+    obtain ⟨t1, t2, rfl, h1, h2, -, -⟩ := C07_vol_tree d v hcol
+    have hd := C08.deep v d h t1 h1
+    have hl := C08.leaf_flat (c := .seq "list" d) rfl v h2
+    rw [Err.flat_sum, flatMembers_cons, flatMembers_cons, flatMembers_nil, List.append_nil]
+    refine ⟨fun m hm => ?_, fun hnil => hd.2 (List.append_eq_nil_iff.1 hnil).1⟩
+    rcases List.mem_append.1 hm with hm | hm
+    · exact hd.1 m hm
+    · exact hl.1 m hm
 theorem C08.deeps (v : Val) : (cs : List Conv) → recordsInputDeepList cs = true → (ts : List Err) →
     ts.length = cs.length →
     (∀ (i : Nat) (h1 : i < cs.length) (h2 : i < ts.length), colC E cs[i] v = .ok (some ts[i])) →
